@@ -244,4 +244,66 @@ example : ∃ s, run { lens := fun w => 10 * w, coalesce := true } init
     s.pc 3 = .done 0 false ∧ s.closed = true := by
   refine ⟨_, rfl, ?_, ?_, ?_, ?_, ?_⟩ <;> decide
 
+/-! ### frame size is a parameter: nothing above depends on it; the two writers differ in ONE size-independent detail -/
+
+/-- the coalescer attributes the result of the vectored write by BYTE COUNT (`flush`): a buffer all of whose bytes
+    the transport took is reported `(len, nil)` to its writer even when that Write returned an error as well … -/
+theorem C07_coalescer_counts_bytes (cfg : Cfg) (hc : cfg.coalesce = true) (s s' : St) (w : Nat) (ok : Bool)
+    (hw : s.pc w = .inWrite (cfg.lens w)) (hs : step cfg s (.endWrite w ok) = some s') :
+    s'.pc w = .wrote (cfg.lens w) true := by
+  simp only [step, hw] at hs
+  split at hs
+  · injection hs with hs; subst hs
+    simp [setPc_same, hc]
+  · simp at hs
+
+/-- … which is what the attribution loop computes for that buffer (`attrib`, proved equal to its positional
+    specification): whole iff all its bytes are below the byte count … -/
+theorem C07_attribution_head (l off : Nat) (ls : List Nat) (h : off ≤ l) :
+    (attrib (l :: ls) off).head? = some (off, decide (off = l)) := by
+  simp only [attrib]
+  split
+  · have : off = l := by omega
+    subst this; simp
+  · have : off ≠ l := by omega
+    simp [this]
+
+/-- … while the direct writer hands the result of its one Write through unchanged -/
+theorem C07_direct_hands_result_through (cfg : Cfg) (hc : cfg.coalesce = false) (s s' : St) (w off : Nat) (ok : Bool)
+    (hw : s.pc w = .inWrite off) (hs : step cfg s (.endWrite w ok) = some s') :
+    s'.pc w = .wrote off ok := by
+  simp only [step, hw] at hs
+  split at hs
+  · injection hs with hs; subst hs
+    simp [setPc_same, hc]
+  · simp at hs
+
+/-- non-vacuity with frames at the 4 KiB boundary: direct writer, frames of 4095 / 4096 / 4097 bytes; the 4096-byte
+    frame goes out in pieces (up to the boundary minus one, one byte, nothing more) while the others wait -/
+example : ∃ s, run { lens := fun w => 4094 + w, coalesce := false } init
+    [.submit 2, .submit 1, .submit 3, .enter 2, .piece 2 4095, .piece 2 1, .endWrite 2 true, .enter 3, .piece 3 9,
+     .piece 3 4087, .piece 3 1, .endWrite 3 true, .enter 1, .piece 1 4095, .endWrite 1 true, .ret 1, .ret 2, .ret 3] = some s ∧
+    glue s.wire = [⟨1, 0, 4095⟩, ⟨3, 0, 4097⟩, ⟨2, 0, 4096⟩] ∧ s.pc 2 = .done 4096 true ∧ s.closed = false := by
+  refine ⟨_, rfl, ?_, ?_, ?_⟩ <;> decide
+
+/-- a second writer cannot enter while the 4096-byte frame is half out (semaphore), whatever its size -/
+example : run { lens := fun w => 4094 + w, coalesce := false } init
+    [.submit 2, .submit 1, .enter 2, .piece 2 2048, .enter 1] = none := by decide
+
+/-- coalescer: a 4096-byte frame and a small one in one flush, the large one cut at byte 4095 (deadline): the small
+    one behind it fails with 0 bytes, nothing of it reaches the wire -/
+example : ∃ s, run { lens := fun w => if w = 1 then 4096 else 64, coalesce := true } init
+    [.submit 1, .submit 2, .enqueue 1, .enqueue 2, .tick, .enter 1, .piece 1 4095, .endWrite 1 false, .ret 1, .ret 2,
+     .close 1, .close 2, .closeFinish 1] = some s ∧
+    glue s.wire = [⟨1, 0, 4095⟩] ∧ s.pc 1 = .done 4095 false ∧ s.pc 2 = .done 0 false ∧ s.closed = true := by
+  refine ⟨_, rfl, ?_, ?_, ?_, ?_⟩ <;> decide
+
+/-- coalescer: the transport took all 4096 bytes and reported an error as well: the writer is told success, the
+    error is dropped (nobody behind it in the flush), the connection stays open and the next flush is written -/
+example : ∃ s, run { lens := fun w => if w = 1 then 4096 else 64, coalesce := true } init
+    [.submit 1, .enqueue 1, .tick, .enter 1, .piece 1 4096, .endWrite 1 false, .ret 1, .submit 2, .enqueue 2, .tick,
+     .enter 2, .piece 2 64, .endWrite 2 true, .ret 2] = some s ∧
+    glue s.wire = [⟨2, 0, 64⟩, ⟨1, 0, 4096⟩] ∧ s.pc 1 = .done 4096 true ∧ s.pc 2 = .done 64 true ∧ s.closed = false := by
+  refine ⟨_, rfl, ?_, ?_, ?_, ?_⟩ <;> decide
+
 end C07
